@@ -712,21 +712,24 @@ class BundleReader:
                         ' should be a bzr meta line "==="'
                         ": {!r}".format(line)
                     )
-                action = line[4:-1].decode("utf-8")
+                # The writer wraps the encoded line at a byte count, which
+                # may fall inside a multi-byte character: join the pieces
+                # before decoding.
+                action = line[4:-1]
             elif line.startswith(b"... "):
-                action += line[len(b"... ") : -1].decode("utf-8")
+                action += line[len(b"... ") : -1]
 
             if self._next_line is not None and self._next_line.startswith(b"==="):
-                return action, lines, True
+                return action.decode("utf-8"), lines, True
             elif self._next_line is None or self._next_line.startswith(b"#"):
-                return action, lines, False
+                return action.decode("utf-8"), lines, False
 
             if first:
                 first = False
             elif not line.startswith(b"... "):
                 lines.append(line)
 
-        return action, lines, False
+        return action.decode("utf-8"), lines, False
 
     def _read_patches(self):
         """Read all patches for the current revision.
